@@ -306,6 +306,9 @@ class Timeline:
         # Copy self.tracks because removing from it whilst using it = bad idea
         #--------------------------------------------------------------------------------
         for track in self.tracks[:]:
+            if track not in self.tracks:
+                # Unscheduled earlier in this tick (e.g. by another track's action): must not play on.
+                continue
             try:
                 track.tick()
             except Exception as e:
